@@ -133,15 +133,22 @@ inline std::string canonFromBytes(const std::string& bytes, std::string* err = n
 // ------------------------------------------------------------------ a transformer with its simulated world
 struct Param { std::string name, kind, value; };   // kind: expr | string | number
 
+struct TransformerDeleter {
+    xercesc::MemoryManager* placed = nullptr;     // non-null: the object lives in a block of this manager
+    void operator()(XalanTransformer* t) const { if (!t) return; if (placed) { t->~XalanTransformer(); placed->deallocate(t); } else delete t; }
+};
+
 struct XEnv {
     xercesc::MemoryManager* mm;       // manager given to the transformer (may be the default)
-    std::unique_ptr<XalanTransformer> T;
+    std::unique_ptr<XalanTransformer, TransformerDeleter> T;
     SimFS fs; std::unique_ptr<SimResolver> resolver;
     std::vector<const XalanCompiledStylesheet*> sheets;
     std::vector<const XalanParsedSource*> sources;
     std::string scratchDir;
-    explicit XEnv(xercesc::MemoryManager* m = nullptr) : mm(m) {
-        T.reset(m ? new XalanTransformer(*m) : new XalanTransformer());
+    // placeInManager: allocate the transformer object itself from the manager too (deterministic-arena runs)
+    explicit XEnv(xercesc::MemoryManager* m = nullptr, bool placeInManager = false) : mm(m) {
+        if (m && placeInManager) { void* p = m->allocate(sizeof(XalanTransformer)); T = std::unique_ptr<XalanTransformer, TransformerDeleter>(new (p) XalanTransformer(*m), TransformerDeleter{ m }); }
+        else T = std::unique_ptr<XalanTransformer, TransformerDeleter>(m ? new XalanTransformer(*m) : new XalanTransformer(), TransformerDeleter{});
         resolver.reset(new SimResolver(fs)); T->setEntityResolver(resolver.get());
     }
     xercesc::MemoryManager& manager() { return mm ? *mm : *xercesc::XMLPlatformUtils::fgMemoryManager; }
